@@ -3,8 +3,17 @@
 from . import ekf, models as M
 
 
-def make_jobs(ctx, n, n_points=2, ks=(None, 3.0, 1.0), min_sensors=0, max_sensors=2, max_states=4, rational_every=2, **kw):
+def make_jobs(ctx, n, n_points=2, ks=(None, 3.0, 1.0), min_sensors=0, max_sensors=2, max_states=4, rational_every=2, function_coverage=False, **kw):
     jobs = []
+    if function_coverage:
+        # fixed definitions first: every supported unary function, arguments with even powers of negative values
+        for gi, d in enumerate(M.function_coverage_definitions()):
+            pts = []
+            for p in M.function_coverage_points(d):
+                p = dict(p, P=ekf.spd(ctx.rng, len(d["state"])), readings={k: {r: M.rnd_point(ctx.rng) for r in rd} for k, rd in d["sensors"].items()})
+                pts.append(p)
+            for cse in (False, True):
+                jobs.append({"defn": d, "cse": cse, "k": None, "max_dt": 0.1, "decl": {"container": "list", "perm_seed": gi}, "points": pts, "combo": (True, True)})
     for i in range(n):
         fc, fl = bool(i & 1), bool(i & 2)
         if i % 8 == 6:
